@@ -757,3 +757,320 @@ fn fields_only<const EXP: bool>(v6: bool) {
 sproof!(c11_fields_v4, 7, { fields_only::<false>(false) });
 sproof!(c11_fields_v4_exp, 7, { fields_only::<true>(false) });
 sproof!(c11_fields_v6, 7, { fields_only::<false>(true) });
+
+// =============================================================================================
+// C02: soundness.  Situation A is what was signed (its RFC transcript digest is what the ideal signature
+// primitive vouches for); situation B is what is presented for verification.  verify(B) = Ok must imply
+// that every field agrees.  Under the injective transcript model the solver shows that no other B is accepted.
+
+/// data signatures: document bytes, pk-alg octet, creation time, opaque subpacket (type, critical bit, body),
+/// v6 salt bytes, signed-hash-value octets
+fn c02_data<const L: usize>(v6: bool) {
+    // A
+    let doc_a: [u8; L] = kani::any();
+    let pk_a: u8 = kani::any();
+    let t_a: u32 = kani::any();
+    let tt_a: u8 = kani::any();
+    let c_a: bool = kani::any();
+    let b_a: [u8; 2] = kani::any();
+    let mut salt_a = SALT16;
+    salt_a[3] = kani::any();
+    let typ_a: u8 = kani::any(); // the signed type octet may be anything
+    kani::assume(tt_ok::<true>(tt_a));
+    let tb = t_a.to_be_bytes();
+    let wire_a = [5, 2, tb[0], tb[1], tb[2], tb[3], 3, tt_a | ((c_a as u8) << 7), b_a[0], b_a[1]];
+    let mut rt = RefT::new();
+    if v6 {
+        rt.put_all(&salt_a);
+    }
+    rt.put_all(&doc_a);
+    rt.sig_fields(v6, typ_a, pk_a, 8, &wire_a);
+    // B
+    let doc_b: [u8; L] = kani::any();
+    let pk_b: u8 = kani::any();
+    let t_b: u32 = kani::any();
+    let tt_b: u8 = kani::any();
+    let c_b: bool = kani::any();
+    let b_b: [u8; 2] = kani::any();
+    let mut salt_b = SALT16;
+    salt_b[3] = kani::any();
+    let shv: [u8; 2] = kani::any();
+    kani::assume(tt_ok::<true>(tt_b));
+    let (hashed, _wire_b) = hashed_area::<true>(t_b, tt_b, c_b, b_b[0], b_b[1]);
+    mk_cfg!(cfg, harr, ustore, v6, SignatureType::Binary, pk_b, salt_b, hashed);
+    let key = MockKey::<4>::new(if v6 { KeyVersion::V6 } else { KeyVersion::V4 }, kani::any(), 7);
+    match rt.digest(HashAlgorithm::Sha256) {
+        None => assert!(false),
+        Some(w) => {
+            expect_digest(&w);
+            let vs = mk_sig(cfg, shv);
+            let ok = is_okf(vs.verify(&*key, &doc_b[..]));
+            kani::cover!(ok, "an untampered signature verifies");
+            if ok {
+                assert!(eq_bytes(&doc_a, &doc_b), "C02: verify accepted a different document");
+                assert!(typ_a == 0, "C02: verify accepted a signature whose signed type octet differs");
+                assert!(pk_a == pk_b, "C02: verify accepted a different public-key algorithm octet");
+                assert!(t_a == t_b && tt_a == tt_b && c_a == c_b && b_a[0] == b_b[0] && b_a[1] == b_b[1],
+                        "C02: verify accepted a modified hashed subpacket area");
+                assert!(!v6 || salt_a[3] == salt_b[3], "C02: verify accepted a different salt");
+                assert!(shv[0] == w[0] && shv[1] == w[1], "C02: verify accepted a wrong signed hash value prefix");
+            }
+            core::mem::forget(vs);
+            core::mem::forget(w);
+        }
+    }
+}
+sproof!(c02_data_v4_2, 10, { c02_data::<2>(false) });
+sproof!(c02_data_v6_2, 10, { c02_data::<2>(true) });
+
+/// truncation / extension of the message: signed over LA bytes, presented LB bytes
+fn c02_data_len<const LA: usize, const LB: usize>() {
+    let doc_a: [u8; LA] = kani::any();
+    let doc_b: [u8; LB] = kani::any();
+    let t: u32 = kani::any();
+    let tb = t.to_be_bytes();
+    let wire = [5, 2, tb[0], tb[1], tb[2], tb[3], 3, 101, 1, 2];
+    let mut rt = RefT::new();
+    rt.put_all(&doc_a);
+    rt.sig_fields(false, 0, 1, 8, &wire);
+    let (hashed, _) = hashed_area::<true>(t, 101, false, 1, 2);
+    let salt = SALT16;
+    mk_cfg!(cfg, harr, ustore, false, SignatureType::Binary, 1u8, salt, hashed);
+    let key = MockKey::<4>::new(KeyVersion::V4, kani::any(), 7);
+    match rt.digest(HashAlgorithm::Sha256) {
+        None => assert!(false),
+        Some(w) => {
+            expect_digest(&w);
+            let vs = mk_sig(cfg, [w[0], w[1]]);
+            assert!(!is_okf(vs.verify(&*key, &doc_b[..])), "C02: verify accepted a truncated or extended message");
+            core::mem::forget(vs);
+            core::mem::forget(w);
+        }
+    }
+}
+sproof!(c02_truncated_3_2, 10, { c02_data_len::<3, 2>() });
+sproof!(c02_extended_2_3, 10, { c02_data_len::<2, 3>() });
+
+/// direct-key signatures: signee key body / version, type octet
+fn c02_key(v6: bool) {
+    let body_a: [u8; 4] = kani::any();
+    let body_b: [u8; 4] = kani::any();
+    let kv6_a: bool = kani::any();
+    let kv6_b: bool = kani::any();
+    let typ_a: u8 = kani::any();
+    let rev_b: bool = kani::any();
+    let t: u32 = kani::any();
+    let tb = t.to_be_bytes();
+    let wire = [5, 2, tb[0], tb[1], tb[2], tb[3], 3, 101, 1, 2];
+    let salt = SALT16;
+    let mut rt = RefT::new();
+    if v6 {
+        rt.put_all(&salt);
+    }
+    rt.key(kv6_a, &body_a);
+    rt.sig_fields(v6, typ_a, 1, 8, &wire);
+    let (hashed, _) = hashed_area::<true>(t, 101, false, 1, 2);
+    let typ_b = if rev_b { SignatureType::KeyRevocation } else { SignatureType::Key };
+    mk_cfg!(cfg, harr, ustore, v6, typ_b, 1u8, salt, hashed);
+    let signer = MockKey::<3>::new(if v6 { KeyVersion::V6 } else { KeyVersion::V4 }, kani::any(), 7);
+    let signee = MockKey::<4>::new(if kv6_b { KeyVersion::V6 } else { KeyVersion::V4 }, body_b, 9);
+    match rt.digest(HashAlgorithm::Sha256) {
+        None => assert!(false),
+        Some(w) => {
+            expect_digest(&w);
+            let vs = mk_sig(cfg, [w[0], w[1]]);
+            let ok = is_okf(vs.verify_key_third_party(&*signee, &*signer));
+            kani::cover!(ok);
+            if ok {
+                assert!(eq_bytes(&body_a, &body_b), "C02: key signature accepted over a different key body");
+                assert!(kv6_a == kv6_b, "C02: key signature accepted over a key of another version (0x99/0x9B framing)");
+                assert!(typ_a == if rev_b { 0x20 } else { 0x1f }, "C02: key signature accepted under a different signature type");
+            }
+            core::mem::forget(vs);
+            core::mem::forget(w);
+        }
+    }
+}
+sproof!(c02_key_v4, 10, { c02_key(false) });
+sproof!(c02_key_v6, 10, { c02_key(true) });
+
+/// certifications: user id / attribute bytes, tag, signee key
+fn c02_cert(v6: bool) {
+    let id_a: [u8; 3] = kani::any();
+    let id_b: [u8; 3] = kani::any();
+    let attr_a: bool = kani::any();
+    let attr_b: bool = kani::any();
+    let body_a: [u8; 3] = kani::any();
+    let body_b: [u8; 3] = kani::any();
+    let t: u32 = kani::any();
+    let tb = t.to_be_bytes();
+    let wire = [5, 2, tb[0], tb[1], tb[2], tb[3], 3, 101, 1, 2];
+    let salt = SALT16;
+    let mut rt = RefT::new();
+    if v6 {
+        rt.put_all(&salt);
+    }
+    rt.key(v6, &body_a);
+    rt.put(if attr_a { 0xd1 } else { 0xb4 });
+    rt.be32(3);
+    rt.put_all(&id_a);
+    rt.sig_fields(v6, 0x13, 1, 8, &wire);
+    let (hashed, _) = hashed_area::<true>(t, 101, false, 1, 2);
+    mk_cfg!(cfg, harr, ustore, v6, SignatureType::CertPositive, 1u8, salt, hashed);
+    let kv = if v6 { KeyVersion::V6 } else { KeyVersion::V4 };
+    let signer = MockKey::<3>::new(kv, kani::any(), 7);
+    let signee = MockKey::<3>::new(kv, body_b, 9);
+    let id = IdBody::<3>(id_b);
+    let tag = if attr_b { Tag::UserAttribute } else { Tag::UserId };
+    match rt.digest(HashAlgorithm::Sha256) {
+        None => assert!(false),
+        Some(w) => {
+            expect_digest(&w);
+            let vs = mk_sig(cfg, [w[0], w[1]]);
+            let ok = is_okf(vs.verify_third_party_certification(&*signee, &*signer, tag, &id));
+            kani::cover!(ok);
+            if ok {
+                assert!(eq_bytes(&id_a, &id_b), "C02: certification accepted over a different user id / attribute");
+                assert!(attr_a == attr_b, "C02: certification accepted with user id and attribute confused (0xB4/0xD1)");
+                assert!(eq_bytes(&body_a, &body_b), "C02: certification accepted over a different key");
+            }
+            core::mem::forget(vs);
+            core::mem::forget(w);
+        }
+    }
+}
+sproof!(c02_cert_v4, 10, { c02_cert(false) });
+sproof!(c02_cert_v6, 10, { c02_cert(true) });
+
+/// bindings: primary/subkey bodies and their order
+fn c02_binding(back: bool) {
+    let p_a: [u8; 3] = kani::any();
+    let s_a: [u8; 3] = kani::any();
+    let p_b: [u8; 3] = kani::any();
+    let s_b: [u8; 3] = kani::any();
+    let t: u32 = kani::any();
+    let tb = t.to_be_bytes();
+    let wire = [5, 2, tb[0], tb[1], tb[2], tb[3], 3, 101, 1, 2];
+    let salt = SALT16;
+    let mut rt = RefT::new();
+    rt.key(false, &p_a);
+    rt.key(false, &s_a);
+    rt.sig_fields(false, if back { 0x19 } else { 0x18 }, 1, 8, &wire);
+    let (hashed, _) = hashed_area::<true>(t, 101, false, 1, 2);
+    let typ = if back { SignatureType::KeyBinding } else { SignatureType::SubkeyBinding };
+    mk_cfg!(cfg, harr, ustore, false, typ, 1u8, salt, hashed);
+    let primary = MockKey::<3>::new(KeyVersion::V4, p_b, 7);
+    let sub = MockKey::<3>::new(KeyVersion::V4, s_b, 9);
+    match rt.digest(HashAlgorithm::Sha256) {
+        None => assert!(false),
+        Some(w) => {
+            expect_digest(&w);
+            let vs = mk_sig(cfg, [w[0], w[1]]);
+            let ok = if back {
+                is_okf(vs.verify_primary_key_binding(&*sub, &*primary))
+            } else {
+                is_okf(vs.verify_subkey_binding(&*primary, &*sub))
+            };
+            kani::cover!(ok);
+            if ok {
+                assert!(eq_bytes(&p_a, &p_b) && eq_bytes(&s_a, &s_b), "C02: binding accepted over different (or swapped) keys");
+            }
+            core::mem::forget(vs);
+            core::mem::forget(w);
+        }
+    }
+}
+sproof!(c02_subkey_binding_v4, 10, { c02_binding(false) });
+sproof!(c02_primary_binding_v4, 10, { c02_binding(true) });
+
+// =============================================================================================
+// C15: acceptance rules on the signature path.
+
+/// v6 keys only make/verify v6 signatures and vice versa: for every (key version, signature version) pair
+fn c15_version_alignment(sig_v6: bool) {
+    let kvb: u8 = kani::any();
+    kani::assume(kvb == 4 || kvb == 6);
+    let kv = if kvb == 6 { KeyVersion::V6 } else { KeyVersion::V4 };
+    let t: u32 = kani::any();
+    let tb = t.to_be_bytes();
+    let wire = [5, 2, tb[0], tb[1], tb[2], tb[3], 3, 101, 1, 2];
+    let salt = SALT16;
+    let doc = [1u8, 2];
+    let mut rt = RefT::new();
+    if sig_v6 {
+        rt.put_all(&salt);
+    }
+    rt.put_all(&doc);
+    rt.sig_fields(sig_v6, 0, 1, 8, &wire);
+    let (hashed, _) = hashed_area::<true>(t, 101, false, 1, 2);
+    mk_cfg!(cfg, harr, ustore, sig_v6, SignatureType::Binary, 1u8, salt, hashed);
+    // fingerprint/key id of the mock depend on its version
+    let key = MockKey::<4>::new(kv, kani::any(), 7);
+    match rt.digest(HashAlgorithm::Sha256) {
+        None => assert!(false),
+        Some(w) => {
+            expect_digest(&w);
+            let vs = mk_sig(cfg, [w[0], w[1]]);
+            let ok = is_okf(vs.verify(&*key, &doc[..]));
+            kani::cover!(ok);
+            kani::cover!(!ok);
+            assert!(ok == ((kvb == 6) == sig_v6), "C15: signature accepted/rejected against the v6<->v6 alignment rule");
+            core::mem::forget(vs);
+            core::mem::forget(w);
+        }
+    }
+}
+sproof!(c15_align_sig_v4, 10, { c15_version_alignment(false) });
+sproof!(c15_align_sig_v6, 10, { c15_version_alignment(true) });
+
+/// signing side: sign() refuses a config whose version does not match the key version
+fn c15_sign_alignment(sig_v6: bool) {
+    let kvb: u8 = kani::any();
+    kani::assume(kvb == 4 || kvb == 6);
+    kani::assume((kvb == 6) != sig_v6); // only the mismatching pairs: sign() must fail (and drops nothing stack-backed)
+    let kv = if kvb == 6 { KeyVersion::V6 } else { KeyVersion::V4 };
+    let salt = SALT16;
+    let cfg = if sig_v6 {
+        SignatureConfig::v6_with_salt(SignatureType::Binary, PublicKeyAlgorithm::RSA, HashAlgorithm::Sha256, salt.to_vec())
+    } else {
+        SignatureConfig::v4(SignatureType::Binary, PublicKeyAlgorithm::RSA, HashAlgorithm::Sha256)
+    };
+    let key = MockKey::<4>::new(kv, kani::any(), 7);
+    let doc = [1u8, 2];
+    let r = okf(cfg.sign(&*key, &Password::empty(), &doc[..]));
+    assert!(r.is_none(), "C15: a signature whose version does not match the key version was produced");
+}
+sproof!(c15_sign_align_v4, 7, { c15_sign_alignment(false) });
+sproof!(c15_sign_align_v6, 7, { c15_sign_alignment(true) });
+
+/// issuer binding: a signature naming an issuer key id verifies only under a key with that id
+fn issuer_keyid_case() {
+    let kid_sig: [u8; 8] = kani::any();
+    let kid_key: [u8; 8] = kani::any();
+    let t: u32 = kani::any();
+    let tb = t.to_be_bytes();
+    let wire = [5, 2, tb[0], tb[1], tb[2], tb[3], 9, 16, kid_sig[0], kid_sig[1], kid_sig[2], kid_sig[3], kid_sig[4], kid_sig[5], kid_sig[6], kid_sig[7]];
+    let doc = [1u8, 2];
+    let mut rt = RefT::new();
+    rt.put_all(&doc);
+    rt.sig_fields(false, 0, 1, 8, &wire);
+    let sp1 = Subpacket { is_critical: false, data: SubpacketData::SignatureCreationTime(Timestamp::from_secs(t)), len: SubpacketLength::One(5) };
+    let sp2 = Subpacket { is_critical: false, data: SubpacketData::IssuerKeyId(KeyId::new(kid_sig)), len: SubpacketLength::One(9) };
+    let salt = SALT16;
+    mk_cfg!(cfg, harr, ustore, false, SignatureType::Binary, 1u8, salt, [sp1, sp2]);
+    let mut key = MockKey::<4>::new(KeyVersion::V4, kani::any(), 7);
+    key.kid = KeyId::new(kid_key);
+    match rt.digest(HashAlgorithm::Sha256) {
+        None => assert!(false),
+        Some(w) => {
+            expect_digest(&w);
+            let vs = mk_sig(cfg, [w[0], w[1]]);
+            let ok = is_okf(vs.verify(&*key, &doc[..]));
+            kani::cover!(ok);
+            assert!(ok == eq_bytes(&kid_sig, &kid_key), "C02/C13: signature with an issuer key id accepted under a key with another id (or rejected under its own)");
+            core::mem::forget(vs);
+            core::mem::forget(w);
+        }
+    }
+}
+sproof!(c15_issuer_keyid, 10, { issuer_keyid_case() });
